@@ -22,6 +22,7 @@ warnings.simplefilter("ignore")
 import json
 import os
 import sys
+sys.path.insert(0, os.path.dirname(os.path.abspath(__file__)))
 from fractions import Fraction as Fr
 
 
@@ -725,6 +726,8 @@ def main():
     gen_combinators(repo, outdir, summary)
     gen_splines(repo, outdir, summary)
     gen_kernels(repo, outdir, summary)
+    import py2lean_logic
+    py2lean_logic.gen_logic(repo, outdir, summary, write_if_changed)
     bad = []
     for k, e in summary["forms"]["forms"].items():
         for m, v in e.items():
@@ -739,6 +742,9 @@ def main():
     for k, v in summary["kernels"]["kernels"].items():
         if v is not True:
             bad.append("kernel %s: %s" % (k, v))
+    for k, v in summary["logic"]["procs"].items():
+        if v is not True:
+            bad.append("logic %s: %s" % (k, v))
     print(json.dumps(dict(summary=dict(untranslatable=bad, forms_changed=summary["forms"]["changed"], combinators_changed=summary["combinators"]["changed"]),
                           detail=summary)))
 
